@@ -25,7 +25,18 @@ FN_DIR = 171
 
 # ---- unit pool: equal dimension, different scale ------------------------------------------------------------------
 POOL = {'V': ['volt', 'mV', 'uV'], 'T': ['second', 'ms'], '1': ['dimensionless', 'percent'], 'U': ['ub', 'kub'],
-        'A': ['m2', 'half_m2', 'quarter_cm2']}     # user units combining multiplier, prefix and exponent
+        'A': ['m2', 'half_m2', 'quarter_cm2'],     # user units combining multiplier, prefix and exponent
+        'H': ['rt_s', 'rt_ms'], 'Q': ['s15', 'ms15'], 'N': ['prt_s', 'prt_ms']}     # half-integer exponents
+# two user unit names whose MEANING changes from document to document (flavour 0, 1, 2)
+POOL['V'].append('uv_x')
+POOL['T'].append('ut_x')
+FLAVOURS = {'uv_x': [dict(units='volt', prefix='milli'), dict(units='volt', prefix='micro'),
+                     dict(units='volt', multiplier='10')],
+            'ut_x': [dict(units='second', prefix='milli'), dict(units='second', multiplier='60'),
+                     dict(units='second', prefix='-6')]}
+PREFIX_POWER = {'yotta': 24, 'zetta': 21, 'exa': 18, 'peta': 15, 'tera': 12, 'giga': 9, 'mega': 6, 'kilo': 3, 'hecto': 2,
+                'deka': 1, 'deci': -1, 'centi': -2, 'milli': -3, 'micro': -6, 'nano': -9, 'pico': -12, 'femto': -15,
+                'atto': -18, 'zepto': -21, 'yocto': -24}
 DIM_OF = {u: d for d, us in POOL.items() for u in us}
 SCALE = {'volt': Fraction(1), 'mV': Fraction(1, 1000), 'uV': Fraction(1, 10 ** 6), 'second': Fraction(1),
          'ms': Fraction(1, 1000), 'dimensionless': Fraction(1), 'percent': Fraction(1, 100), 'ub': Fraction(1),
@@ -43,14 +54,50 @@ def _def(name, children=None, base=None):
     return {'name': name, 'base': base, 'children': children or []}
 
 
-def unit_defs():
-    return [_def('mV', [_child('volt', prefix='milli')]), _def('uV', [_child('mV', prefix='-3')]),
+def unit_defs(flavour=0):
+    return [_def(n, [_child(**FLAVOURS[n][flavour % 3])]) for n in sorted(FLAVOURS)] + [
+            _def('rt_s', [_child('second', exponent='0.5')]),
+            _def('rt_ms', [_child('second', prefix='milli', exponent='0.5')]),
+            _def('s15', [_child('second', exponent='1.5')]),
+            _def('ms15', [_child('second', prefix='milli', exponent='1.5')]),
+            _def('prt_s', [_child('second', exponent='-0.5')]),
+            _def('prt_ms', [_child('second', prefix='milli', exponent='-0.5')]),
+            _def('mV', [_child('volt', prefix='milli')]), _def('uV', [_child('mV', prefix='-3')]),
             _def('ms', [_child('second', multiplier='0.001')]),
             _def('percent', [_child('dimensionless', multiplier='0.01')]),
             _def('ub', base='yes'), _def('kub', [_child('ub', prefix='kilo')]),
             _def('m2', [_child('metre', exponent='2')]),
             _def('half_m2', [_child('metre', exponent='2', multiplier='0.5')]),
             _def('quarter_cm2', [_child('metre', prefix='centi', exponent='2', multiplier='0.25')])]
+
+
+def doc_scales(doc):
+    """SI scale of every unit name of THIS document, from the document's own <units> (CellML 5.2.7:
+    product over the <unit> children of  multiplier * (10^prefix * scale(units)) ^ exponent); floats"""
+    defs = {d['name']: d for d in doc['units']}
+    out = {}
+
+    def scale(n, depth=0):
+        if n in out:
+            return out[n]
+        if n not in defs or depth > 20:
+            return float(SCALE.get(n, 1))
+        d = defs[n]
+        x = 1.0
+        if d['base'] != 'yes':
+            for c in d['children']:
+                p = c.get('prefix')
+                k = 0 if p is None else (PREFIX_POWER[p] if p in PREFIX_POWER else int(p))
+                e = 1.0 if c.get('exponent') is None else float(c['exponent'])
+                m = 1.0 if c.get('multiplier') is None else float(c['multiplier'])
+                x *= m * (10.0 ** k * scale(c['units'], depth + 1)) ** e
+        out[n] = x
+        return x
+    for n in defs:
+        scale(n)
+    for n, v in SCALE.items():
+        out.setdefault(n, float(v))
+    return out
 
 
 # ---- expressions --------------------------------------------------------------------------------------------------
@@ -501,8 +548,9 @@ NUMS = ['1', '2', '3', '0.5', '1.5', '4', '0.25', '2.5', '10', '0.1']
 
 
 class Gen(object):
-    def __init__(self, seed, ncomp=None, floor_fns=False, case_names=False):
+    def __init__(self, seed, ncomp=None, floor_fns=False, case_names=False, flavour=None):
         self.rng = random.Random(seed)
+        self.flavour = self.rng.randrange(3) if flavour is None else flavour
         self.floor_fns = floor_fns
         self.case_names = case_names
         self.n = ncomp or self.rng.randint(2, 7)
@@ -630,7 +678,7 @@ class Gen(object):
             return ['times'] + args
         if k < 0.7:
             if dim == '1':
-                d2 = r.choice(['V', 'T', 'U', '1', 'A'])
+                d2 = r.choice(['V', 'T', 'U', '1', 'A', 'H', 'Q', 'N'])
                 return ['divide', self.expr(c, d2, avail, depth - 1), self.pos(c, d2, avail)]
             return ['divide', self.expr(c, dim, avail, depth - 1), self.pos(c, '1', avail)]
         if k < 0.8 and dim == '1':
@@ -664,7 +712,7 @@ class Gen(object):
         for c in order:
             nown = r.randint(1, 4)
             for j in range(nown):
-                dim = r.choice(['V', 'V', 'T', '1', 'U', 'A'])
+                dim = r.choice(['V', 'V', 'T', '1', 'U', 'A', 'H', 'Q', 'N'])
                 units = r.choice(POOL[dim])
                 kind = r.choice(['state', 'const', 'comp', 'comp'])
                 base = r.choice(['v', 'x', 'y', 'g', 'k', 'a', 'b', 'm', 'h'])
@@ -828,7 +876,7 @@ class Gen(object):
             r.shuffle(maps)
             conns.append({'c1': c1, 'c2': c2, 'maps': maps})
         r.shuffle(conns)
-        doc = {'model_cmeta': None, 'units': unit_defs(), 'comps': comps, 'groups': groups, 'conns': conns,
+        doc = {'model_cmeta': None, 'units': unit_defs(self.flavour), 'comps': comps, 'groups': groups, 'conns': conns,
                'flows': [list(x) for lst in self.pairs.values() for x in lst]}
         r.shuffle(doc['units'])
         order = default_order(doc)
@@ -838,8 +886,8 @@ class Gen(object):
         return doc
 
 
-def gen_valid(seed, ncomp=None, floor_fns=False, case_names=False):
-    return Gen(seed, ncomp, floor_fns, case_names).build()
+def gen_valid(seed, ncomp=None, floor_fns=False, case_names=False, flavour=None):
+    return Gen(seed, ncomp, floor_fns, case_names, flavour).build()
 
 
 # ---- the 324 two-component interface documents --------------------------------------------------------------------
@@ -958,7 +1006,8 @@ def ref_solve(doc, seed):
     for k in doc['conns']:
         for a, b in k['maps']:
             parent[find((k['c1'], a))] = find((k['c2'], b))
-    sc = {k: float(SCALE[u]) for k, u in units.items()}
+    scales = doc_scales(doc)
+    sc = {k: scales[u] for k, u in units.items()}
     si = {}                     # class -> SI value
     dsi = {}                    # (xclass, tclass) -> SI derivative
     states = set()
@@ -1005,7 +1054,7 @@ def ref_solve(doc, seed):
                             if kk in dsi:
                                 denv[(vx['name'], vt['name'])] = dsi[kk]
             try:
-                val = eval_expr(si_numbers(q[2]), env, denv)
+                val = eval_expr(si_numbers(q[2], scales), env, denv)
             except NoValue:
                 rest.append((cname, q))
                 continue
@@ -1038,7 +1087,8 @@ def expr_magnitude(e, env, denv, emag):
 def ref_magnitudes(doc, si, dsi, classes):
     """(comp, var) -> bound (in the variable's own unit) on the magnitudes that enter the computation of its
     connection class, propagated through the equations"""
-    sc = {(c['name'], v['name']): float(SCALE[v['units']]) for c in doc['comps'] for v in c['vars']}
+    scales = doc_scales(doc)
+    sc = {(c['name'], v['name']): scales[v['units']] for c in doc['comps'] for v in c['vars']}
     cmag = {}
     for _ in range(6):
         for c in doc['comps']:
@@ -1055,16 +1105,16 @@ def ref_magnitudes(doc, si, dsi, classes):
                 for q in m:
                     if q[1][0] == 'ci':
                         cl = classes[(c['name'], q[1][1])]
-                        cmag[cl] = max(cmag.get(cl, 0.0), expr_magnitude(si_numbers(q[2]), env, denv, emag))
+                        cmag[cl] = max(cmag.get(cl, 0.0), expr_magnitude(si_numbers(q[2], scales), env, denv, emag))
     return {k: cmag.get(cl, 0.0) / sc[k] for k, cl in classes.items()}
 
 
-def si_numbers(e):
+def si_numbers(e, scales):
     if e[0] == 'cn':
-        return ['cn', repr(float(e[1]) * float(SCALE[e[2]])), 'dimensionless']
+        return ['cn', repr(float(e[1]) * scales[e[2]]), 'dimensionless']
     if e[0] == 'ci':
         return e
-    return [e[0]] + [si_numbers(a) for a in e[1:]]
+    return [e[0]] + [si_numbers(a, scales) for a in e[1:]]
 
 
 def walk(e):
@@ -1117,6 +1167,7 @@ def impl_values(model, doc, classes, si):
     from cellmlmanip.model import Quantity, Variable
     units = {'%s$%s' % (c['name'], v['name']): v['units'] for c in doc['comps'] for v in c['vars']}
     cls = {'%s$%s' % k: cl for k, cl in classes.items()}
+    scales = doc_scales(doc)
     defs, odes = {}, {}
     for q in model.equations:
         q2 = model.units.convert_expression_recursively(q, None)
@@ -1140,7 +1191,7 @@ def impl_values(model, doc, classes, si):
             cl = cls[v.name]
             if cl not in si:
                 raise NoValue(v.name)
-            r = si[cl] / float(SCALE[units[v.name]])
+            r = si[cl] / scales[units[v.name]]
         else:
             raise NoValue('%s has no definition in the loaded model' % v.name)
         cache[v] = r
